@@ -294,3 +294,9 @@ def pull_graph(fs: int) -> bool:
     except Exception:  # noqa: BLE001
         ok = False
     return fin(M, ok, fs=fs)
+
+
+def probe():
+    st = pj.gen_stream(1, pj.make_options(1))
+    st.flow, st.enroll, st.flow.to_stream_frame  # noqa: B018
+    len(st.flow)
